@@ -286,9 +286,17 @@ def rule_part(run):
     sub = [n for n in walk_no_nested(em.node) if isinstance(n, ast.AugAssign) and isinstance(n.target, ast.Attribute) and n.target.attr == 'volume']
     key = 't2grid.embed :: host block loses the sub-grid volume'
     if len(sub) == 1:
-        good = isinstance(sub[0].op, ast.Sub) and norm(sub[0].value) == 'subvol' and \
-            norm(sub[0].target.value) in ('result.block[hostblock.name]', 'hostblock')
+        tgt = sub[0].target.value
+        # the block that loses the volume must be looked up by name in the grid being returned: the connection handed in may
+        # carry a block object of another copy of the model (embed() itself re-resolves the connection's blocks by name)
+        by_name = isinstance(tgt, ast.Subscript) and isinstance(tgt.value, ast.Attribute) and tgt.value.attr == 'block' and \
+            isinstance(tgt.slice, ast.Attribute) and tgt.slice.attr == 'name'
+        good = isinstance(sub[0].op, ast.Sub) and norm(sub[0].value) == 'subvol' and by_name
         if good: run.ok(key, where=em.where(sub[0]))
+        elif isinstance(sub[0].op, ast.Sub) and norm(sub[0].value) == 'subvol' and isinstance(tgt, ast.Name):
+            run.violated(key, '`%s` takes the volume off the block object that came with the connection, not off the block of that name in the '
+                         'resulting grid: for a connection built from another copy of the model the result keeps the full host volume and the total '
+                         'grows by the sub-grid volume' % norm(sub[0]), where=em.where(sub[0]))
         else: run.violated(key, 'host volume updated by `%s`' % norm(sub[0]), where=em.where(sub[0]))
         # on the success path: same block as `result = self + subgrid`
         same = any(sub[0] in b and any(isinstance(s, ast.Assign) and norm(s.targets[0]) == 'result' and
